@@ -1,10 +1,12 @@
 //! Read-only bank of values living in static memory (built by dashu's `static_*!` macros).
 
+use dashu_float::{DBig, FBig};
 use dashu_int::{IBig, UBig};
-use dashu_macros::{static_ibig, static_ubig};
+use dashu_macros::{static_dbig, static_fbig, static_ibig, static_rbig, static_ubig};
+use dashu_ratio::RBig;
 
 pub fn ubank() -> &'static [&'static UBig] {
-    static BANK: [&UBig; 9] = [
+    static BANK: [&UBig; 11] = [
         static_ubig!(0),
         static_ubig!(1),
         static_ubig!(0xffffffffffffffff),
@@ -14,6 +16,43 @@ pub fn ubank() -> &'static [&'static UBig] {
         static_ubig!(0x8000000000000000_0000000000000000_0000000000000000_0000000000000000_0000000000000000_0000000000000000_0000000000000000_0000000000000000_0000000000000000_0000000000000001),
         static_ubig!(0x8000000000000000_0000000000000000_0000000000000000_0000000000000000_0000000000000000_0000000000000000_0000000000000000_0000000000000000_0000000000000000_0000000000000003),
         static_ubig!(0xfedcba9876543210_0123456789abcdef_fedcba9876543210_0123456789abcdef_fedcba9876543210_0123456789abcdef_fedcba9876543210_0123456789abcdef),
+        // two words (the [lo, hi] arm of the static constructor)
+        static_ubig!(0x1_0000_0000_0000_0000),
+        static_ubig!(0x8000_0000_0000_0000_0000_0000_0000_0001),
+    ];
+    &BANK
+}
+
+pub fn fbank() -> &'static [&'static FBig] {
+    static BANK: [&FBig; 5] = [
+        static_fbig!(0),
+        static_fbig!(1),
+        static_fbig!(-0x18p-7),
+        static_fbig!(0x5a4653ca673768565b41f775d6947d55cf3813d1p-200),
+        static_fbig!(-0xfedcba9876543210_0123456789abcdef_fedcba9876543210_0123456789abcdefp70),
+    ];
+    &BANK
+}
+
+pub fn dbank() -> &'static [&'static DBig] {
+    static BANK: [&DBig; 5] = [
+        static_dbig!(0),
+        static_dbig!(1),
+        static_dbig!(-1.25e-3),
+        static_dbig!(515377520732011331036461129765621272702107522001e-100),
+        static_dbig!(-123456789012345678901234567890123456789012345678901234567890123456789012345678901234567890e12),
+    ];
+    &BANK
+}
+
+pub fn rbank() -> &'static [&'static RBig] {
+    static BANK: [&RBig; 6] = [
+        static_rbig!(0),
+        static_rbig!(1),
+        static_rbig!(-1234567890123456789 / 9876543210987654323),
+        static_rbig!(-2 / 9876543210987654323),
+        static_rbig!(-123456789012345678901234567 / 987654321098765432109876543),
+        static_rbig!(123456789012345678901234567890123456789012345678901234567890123456789012345678901234567891 / 1000000000000000000000000000000000000000000000000000000000000000000000007),
     ];
     &BANK
 }
@@ -43,6 +82,24 @@ pub fn register() {
         let (_, w) = v.as_sign_words();
         if w.len() > 2 {
             crate::view::register_static(w);
+        }
+    }
+    let mut reg_i = |v: &IBig| {
+        let (_, w) = v.as_sign_words();
+        if w.len() > 2 {
+            crate::view::register_static(w);
+        }
+    };
+    for v in fbank() {
+        reg_i(v.repr().significand());
+    }
+    for v in dbank() {
+        reg_i(v.repr().significand());
+    }
+    for v in rbank() {
+        reg_i(v.numerator());
+        if v.denominator().as_words().len() > 2 {
+            crate::view::register_static(v.denominator().as_words());
         }
     }
 }
